@@ -6,12 +6,12 @@ VERIF = os.path.dirname(os.path.dirname(os.path.abspath(__file__)))
 CLAIMED = {
     "C03": dict(
         engine="R+P", technique="stateful property-based testing (proptest op sequences with a drop ledger; ASan+LSan leg)",
-        text="Generated create/convert/clone/borrow/drop histories over the runtime's FFI-safe result/option/owned-slice/callback types with drop-recording payloads; the ledger must show every payload dropped exactly once and only with its owner. Exploration: finds double drops/leaks on the histories generated, proves nothing beyond them.",
+        text="Generated create/convert/clone/borrow/drop histories over the runtime's FFI-safe result/option/owned-slice/callback types with drop-recording payloads, interleaved with foreign-side scratch buffers (diplomat_alloc/diplomat_free pairs, zero bytes included); the ledger must show every payload dropped exactly once and only with its owner. Exploration: finds double drops/leaks on the histories generated, proves nothing beyond them.",
         note="Trusted: proptest, rustc, ASan/LSan. Payload ids are thread-local; foreign-built values use the documented repr(C) layouts.",
         ref="DESIGN.md §2 C03"),
     "C12": dict(
-        engine="R", technique="model-based property testing with injected grow() outcomes (proptest; ASan leg with exactly-sized buffers)",
-        text="Generated chunk/flush sequences against caller-supplied (scripted grow outcomes), Rust-owned and fixed-buffer writers; after every operation the buffer, len, cap, sticky flag, accessor results, grow requests and guard bytes are compared with a reference model. Exploration over inputs and fault sequences.",
+        engine="R+P", technique="model-based property testing with injected grow() outcomes (proptest; ASan leg with exactly-sized buffers) plus a Hypothesis end-to-end leg through the generated C and C++ APIs",
+        text="Generated chunk/flush sequences against caller-supplied (scripted grow outcomes), Rust-owned and fixed-buffer writers; after every operation the buffer, len, cap, sticky flag, accessor results, grow requests and guard bytes are compared with a reference model. End to end, generated chunk lists written by a real bridge method (repository macro + runtime) are read back through the generated C header (Rust-owned writer, exactly-sized fixed buffers under ASan) and the generated C++ class (std::string writer) and compared with the same model. Exploration over inputs and fault sequences.",
         note="Trusted: the reference model (Vec<u8> + sticky flag), proptest, ASan. Fields are read through the documented repr(C) mirror.",
         ref="DESIGN.md §2 C12"),
     "C16": dict(
